@@ -120,7 +120,7 @@ def discharge(cx, obligations, timeout_s=10.0, jobs=None, progress=None):
         qs = cx.query(ob, relevant=True, level="same")
         qf = cx.query(ob, relevant=True, level="frame")
         if qf:
-            r = solve_multi([("frame", qf, False)], 3.0)
+            r = solve_multi([("frame", qf, False)], min(timeout_s, 10.0))
             if r["status"] == "unsat":
                 ob.result = r
                 return ob
